@@ -366,16 +366,56 @@ def body_multi(case):
 
 
 N_MULTI = {"quick": 2000, "thorough": 60000}
+N_RAND = {"quick": 1600, "thorough": 40000}
+
+
+@st.composite
+def randstart_defs(draw):
+    """x0 omitted, a plausible box that touches a hard bound and is narrow compared with the hard box (a rate in [0, 1000] that is
+    plausibly in [0, 1]): the random start is drawn next to that bound and then snapped to the search grid."""
+    D = draw(st.integers(1, 3))
+    s = draw(st.sampled_from([1.0, 1e-3, 50.0]))
+    side = [draw(st.sampled_from(["lb", "lb", "ub"])) for _ in range(D)]
+    lb, ub, plb, pub = [], [], [], []
+    for sd in side:
+        w = draw(st.sampled_from([1.0, 0.5, 3.0])) * s
+        if sd == "lb":
+            lb.append(0.0); ub.append(1000.0 * s); plb.append(0.0); pub.append(w)
+        else:
+            lb.append(-1000.0 * s); ub.append(0.0); plb.append(-w); pub.append(0.0)
+    return dict(defn=dict(x0=None, lb=lb, ub=ub, plb=plb, pub=pub), seed=draw(st.integers(0, 20000)),
+                grid=draw(st.sampled_from([0, 0, 10, 4])))
+
+
+def body_randstart(case):
+    b, err, ncalls, _ = construct(case["defn"], options={"display": "off", "random_seed": case["seed"], "search_grid_number": case["grid"]})
+    v = []
+    if err is not None:
+        v.append(viol("a:valid-definition-rejected", f"{err['type']}: {err['msg'][:160]}", site=err["site"]))
+    else:
+        for clause, detail in postconditions(case["defn"], b):
+            v.append(viol(clause, detail))
+        # the point the run really starts from: the start after it has been put on the search grid
+        vt = b.var_transf
+        u = np.asarray(b.optim_state["u"], dtype=float).reshape(1, -1)
+        xs = np.asarray(vt.inverse_transf(u), dtype=float).ravel()
+        lo, hi = np.array(case["defn"]["lb"]), np.array(case["defn"]["ub"])
+        if np.any(xs <= lo) or np.any(xs >= hi):
+            v.append(viol("c:x0-not-strictly-inside", f"the gridized start {xs.tolist()} (u={u.ravel().tolist()}) lies on a hard bound lb={lo.tolist()} ub={hi.tolist()} "
+                          f"(random_seed={case['seed']}, search_grid_number={case['grid']})", site="gridized-random-start"))
+    return dict(violations=v, labels=["randstart", f"randstart:grid={case['grid']}"], nontrivial=True, oracle_evals=1, sample=case)
 
 
 def plan(tier):
-    return [("matrix", 16), ("multi", 16)] + ([("fuzz", 16)] if tier == "thorough" else [])
+    return [("matrix", 16), ("multi", 16), ("randstart", 8)] + ([("fuzz", 16)] if tier == "thorough" else [])
 
 
 def run_part(res, part, tier, seed, shard, nshards):
     if part == "fuzz":
         # coverage-guided campaign (atheris/libFuzzer) on the same Hypothesis test, empty corpus, fixed -runs and -seed
         return engine.run_fuzz_part(res, "C08", "fuzz", 4000, seed, shard)
+    if part == "randstart":
+        return engine.hyp_sweep(res, randstart_defs(), body_randstart, runlevel.shard_count(N_RAND[tier], shard, nshards), seed * 1000 + 500 + shard)
     if part == "matrix":
         run_matrix(res, tier, seed, shard, nshards)
     else:
@@ -383,6 +423,9 @@ def run_part(res, part, tier, seed, shard, nshards):
 
 
 def minimise(part, tier, sig, case, seed):
+    if part == "randstart":
+        m = engine.hyp_minimise(randstart_defs(), lambda c: any(engine.signature(x) == sig for x in body_randstart(c)["violations"]), 3000, seed, budget_s=120)
+        return {"case": m or case, "note": "hypothesis shrink" if m else "unminimised"}
     if part in ("multi", "fuzz"):
         m = engine.hyp_minimise(multi_defs(), lambda c: any(engine.signature(x) == sig for x in body_multi(c)["violations"]), 3000, seed, budget_s=120)
         return {"case": m or case, "note": "hypothesis shrink" if m else "unminimised"}
@@ -390,6 +433,8 @@ def minimise(part, tier, sig, case, seed):
 
 
 def replay(part, case):
+    if part == "randstart":
+        return body_randstart(case)["violations"]
     if part in ("multi", "fuzz"):
         return body_multi(case)["violations"]
     return check_definition(case, with_spellings=True)[0]
